@@ -6,3 +6,6 @@
   (and (= m ((as const (Array Int Bool)) false)) (= b ((as const (Array Int Bool)) false))))
 (define-fun allversioned ((m (Array Int Bool)) (b (Array Int Bool))) Bool
   (forall ((n Int)) (! (=> (select m n) (select b n)) :pattern ((select m n)))))
+; re-validation after a latch release: number of validations and whether the last one failed
+;@ghost nval Int
+;@ghost vfail Bool
